@@ -240,6 +240,45 @@ def gated(eng, e):
     return False
 
 
+_ENC = None
+
+
+def _check_one(idx):
+    enc = _ENC
+    S = enc._S
+    S.push()
+    S.add(enc._viol_terms[idx])
+    tq = time.time()
+    r = S.check()
+    dt = round(time.time() - tq, 2)
+    payload = None
+    res = 'unsat'
+    if r == z3.sat:
+        res = 'sat'
+        o, u = enc._items[idx]
+        if not (o is not None and o[2].kind == 'bound'):
+            payload = enc.make_violation(S.model(), enc._spec, enc._scenario, o, u)
+    elif r == z3.unknown:
+        res = 'unknown'
+    S.pop()
+    return (idx, res, dt, payload)
+
+
+def parallel_check(enc, n):
+    global _ENC
+    _ENC = enc
+    jobs = int(os.environ.get('IRSYM_JOBS', '0') or 0) or min(16, os.cpu_count() or 1)
+    if n == 0:
+        return {}
+    if jobs <= 1 or n < 4:
+        return {i: _check_one(i)[1:] for i in range(n)}
+    import multiprocessing as mp
+    ctx = mp.get_context('fork')
+    with ctx.Pool(min(jobs, n)) as pool:
+        out = pool.map(_check_one, range(n), chunksize=1)
+    return {i: (r, dt, p) for (i, r, dt, p) in out}
+
+
 class Encoding:
     def __init__(self, eng, base, leaves, nthreads):
         self.eng = eng
@@ -303,8 +342,8 @@ class Encoding:
                 self.contended.add(a)
         # sanity: a read flagged local must not be on an address written by another thread
         for e in self.events.values():
-            if e.kind in ('R', 'U', 'C') and e.local and e.addr in writers and (writers[e.addr] - {e.thread}):
-                if e.thread != 0 or True:
+            if e.kind in ('R', 'U', 'C') and e.local and e.addr in writers and (writers[e.addr] - {e.thread, 0}):
+                if True:
                     raise Inconclusive('internal: local read on address %#x written by another thread (fix-point incomplete)' % e.addr)
         # clocks: one variable per (thread, position among the *relevant* events of a path). Events in
         # mutually exclusive branches share a variable (at most one of them is executed).
@@ -391,7 +430,7 @@ class Encoding:
                 own_src = self.own_source(r)
                 if own_src is not None and own_src.size != size:
                     raise Unsupported('mixed-size own write/read at %#x' % a)
-                others = [w for w in ws if w.thread != r.thread]
+                others = [w for w in ws if w.thread != r.thread and (w.thread != 0 or r.thread == 0)]
                 key = (r.thread, self.pos[r.id])
                 sv = self.src.get(key)
                 if sv is None:
@@ -416,6 +455,27 @@ class Encoding:
         if not width:
             for x in self.cvar.values():
                 cons.append(x >= 1)
+        # Lemma (redundant, sound under SC with atomic RMWs): a cell that the concurrent threads only ever
+        # modify by atomic add/sub holds, once they are all done, its initial value plus the executed deltas.
+        self.nlemmas = 0
+        for a, evs in groups.items():
+            ws = [e for e in evs if e.kind in ('W', 'U', 'C') and e.thread != 0]
+            if not ws or not all(e.kind == 'U' and isinstance(e.info, tuple) and e.info[0] in ('add', 'sub') for e in ws):
+                continue
+            o = self.base.find_obj(a)
+            if o is None:
+                continue
+            size = ws[0].size
+            init = self.eng.mem_read(self.base, a, size, None, o)
+            total = ex.as_bv(init, size * 8)
+            zero = z3.BitVecVal(0, size * 8)
+            for e in ws:
+                d = ex.as_bv(e.info[1], size * 8)
+                total = total + z3.If(self.g(e.guard), d if e.info[0] == 'add' else -d, zero)
+            for r in evs:
+                if r.thread == 0 and r.kind in ('R', 'U', 'C') and not r.local and self.own_source(r) is None:
+                    cons.append(z3.Implies(self.g(r.guard), ex.as_bv(r.rval, size * 8) == total))
+                    self.nlemmas += 1
         self.cons = cons
         self.nasserts = len(cons)
         for c in cons:
@@ -488,52 +548,48 @@ class Encoding:
                     continue
                 if f.addr <= e.addr < f.addr + max(f.size, 1):
                     uaf.append((f, e))
-        # one big query first
+        # every obligation is its own query (the combined disjunction is far harder for the solver than the sum
+        # of its parts); identical (kind, ident) violations are reported once
         viol_terms = []
+        items = []
         for (t, leaf, ob) in obligations:
             c = self.g(ob.guard)
             if ob.cond is not None:
                 c = z3.And(c, z3.Not(ob.cond))
             viol_terms.append(c)
+            items.append(((t, leaf, ob), None))
         for f, e in uaf:
             viol_terms.append(z3.And(self.g(f.guard), self.g(e.guard), self.lt(self.clk[f.id], self.clk[e.id])))
+            items.append((None, (f, e)))
         verdict = 'holds'
-        if viol_terms:
-            S.push()
-            S.add(z3.Or(*viol_terms))
-            r = S.check()
-            nq += 1
-            S.pop()
-            if r == z3.unknown:
-                inconclusive.append('solver timeout/unknown on the combined violation query (%s)' % S.reason_unknown())
-                verdict = 'unknown'
-            elif r == z3.sat:
-                # find each violated obligation separately (one counterexample per obligation key)
-                done_keys = set()
-                items = [(o, None) for o in obligations] + [(None, u) for u in uaf]
-                for idx, term in enumerate(viol_terms):
-                    o, u = items[idx]
-                    if o is not None:
-                        key = (o[2].kind, str(o[2].ident))
-                    else:
-                        key = ('engine', 'use-after-free')
-                    if key in done_keys:
-                        continue
-                    S.push()
-                    S.add(term)
-                    r2 = S.check()
-                    nq += 1
-                    if r2 == z3.sat:
-                        m = S.model()
-                        done_keys.add(key)
-                        if o is not None and o[2].kind == 'bound':
-                            inconclusive.append(o[2].msg + ' (reachable under SC: raise the bound)')
-                        else:
-                            violations.append(self.make_violation(m, spec, scenario, o, u))
-                    elif r2 == z3.unknown:
-                        inconclusive.append('solver unknown on obligation')
-                    S.pop()
-                verdict = 'violated' if violations else 'inconclusive'
+        self.per_query = []
+        self._S = S
+        self._viol_terms = viol_terms
+        self._items = items
+        self._spec = spec
+        self._scenario = scenario
+        results = parallel_check(self, len(viol_terms))
+        nq += len(viol_terms)
+        done_keys = set()
+        for idx in range(len(viol_terms)):
+            r2, dt, payload = results[idx]
+            self.per_query.append(dt)
+            o, u = items[idx]
+            key = (o[2].kind, str(o[2].ident), o[0]) if o is not None else ('engine', 'use-after-free', 0)
+            if r2 == 'sat':
+                if key in done_keys:
+                    continue
+                done_keys.add(key)
+                if o is not None and o[2].kind == 'bound':
+                    inconclusive.append(o[2].msg + ' (reachable under SC: raise the bound)')
+                else:
+                    violations.append(payload)
+            elif r2 == 'unknown':
+                inconclusive.append('solver timeout/unknown on obligation %s' % (key,))
+        if violations:
+            verdict = 'violated'
+        elif inconclusive:
+            verdict = 'inconclusive'
         # reachability witnesses
         covered = []
         missing = []
@@ -559,6 +615,7 @@ class Encoding:
         sample = None
         if self.events:
             S.push()
+            S.set('timeout', 5000)
             r = S.check()
             nq += 1
             if r == z3.sat:
@@ -569,7 +626,7 @@ class Encoding:
         return {'violations': violations, 'inconclusive': inconclusive, 'covered': covered, 'missing_covers': missing,
                 'events': len(self.events), 'contended_cells': len(self.contended), 'obligations': len(viol_terms),
                 'smt_vars': self.nvars, 'smt_asserts': self.nasserts, 'smt_queries': nq,
-                'smt_s': time.time() - t0, 'verdict': verdict, 'sample': sample}
+                'smt_s': time.time() - t0, 'verdict': verdict, 'sample': sample, 'slow_queries': sorted(self.per_query)[-6:], 'lemmas': self.nlemmas}
 
     def active_events(self, m):
         """Executed events in a global order consistent with the model: an event without its own clock
@@ -628,4 +685,27 @@ class Encoding:
         v = ConcViolation(scenario, kind, ident, msg, inputs={'nondet': {str(k): v for k, v in nondet.items()}},
                           thread=t, where=where, schedule=sched, spec=spec, nondet=nondet)
         v.trace = trace
+        if os.environ.get('IRSYM_DEBUG'):
+            for th, lv in self.leaves.items():
+                best = None
+                for leaf in lv:
+                    k = 0
+                    for c in leaf.pc:
+                        if z3.is_true(m.eval(c, model_completion=True)):
+                            k += 1
+                        else:
+                            break
+                    if best is None or k > best[0]:
+                        best = (k, leaf)
+                k, leaf = best
+                print('DEBUG thread', th, 'best leaf status', leaf.status, 'true prefix', k, 'of', len(leaf.pc),
+                      'first false:', str(leaf.pc[k])[:300] if k < len(leaf.pc) else None)
+                if k < len(leaf.pc):
+                    txt = str(leaf.pc[k])
+                    for e in leaf.events:
+                        if e.rval is not None and not isinstance(e.rval, int) and str(e.rval) in txt:
+                            print('   event', e, 'local', e.local, 'contended', e.addr in self.contended, 'haspos', e.id in self.pos,
+                                  'guard true', z3.is_true(m.eval(self.g(e.guard), model_completion=True)), 'val', m.eval(e.rval, model_completion=True),
+                                  self.eng.loc(e.ins)[:120])
+                            print('   guard:', [str(c)[:100] for c in e.guard], 'evals', [str(m.eval(c, model_completion=True)) for c in e.guard])
         return v
